@@ -42,7 +42,15 @@ def check(ctx):
                     ok = any(f.is_term(p) and f.node(p)["t"] == "drop" and "may::scoped::Scope" in f.node(p)["ty"] for p in ru)
             ctx.ob("R-PAIR", SC + "::scope", "scope/unwind-drops-scope", ok, "a panic in the scope body still ends in the join of every child (caught, then drop_all; or the drop of the Scope value)" if ok else
                    "a panic of the scope body leaves scope() without joining: the owner's frame is gone while children run", f.where(site))
-    ctx.must_call("<may::scoped::Scope as std::ops::Drop>::drop", DA, "scope/drop-joins", "Drop for Scope joins all remaining coroutines (the unwind path of scope())")
+    _f = ctx.prog.fn(SC + "::scope")
+    _b = shared.user_body_sites(ctx, _f) if _f is not None else []
+    if _b and all(c for _, c in _b) and "<may::scoped::Scope as std::ops::Drop>::drop" not in ctx.prog.fns:
+        # (F37) the body runs under catch_unwind and drop_all follows on every path (scope/join-after-body): nothing can be left for a destructor
+        ctx.ob("R-PAIR", SC + "::scope", "scope/drop-joins", True, "scope() itself joins on every path (the body's panic is caught): no Drop for Scope is needed", _f.where(), nontrivial=False)
+    elif _b and all(c for _, c in _b) and not ctx.an.may(ctx.prog.fns["<may::scoped::Scope as std::ops::Drop>::drop"], DA):
+        ctx.ob("R-PAIR", SC + "::scope", "scope/drop-joins", True, "scope() itself joins on every path (the body's panic is caught): Drop for Scope has nothing left to join", _f.where(), nontrivial=False)
+    else:
+        ctx.must_call("<may::scoped::Scope as std::ops::Drop>::drop", DA, "scope/drop-joins", "Drop for Scope joins all remaining coroutines (the unwind path of scope())")
     D = SC + "::Scope::drop_all"
     ctx.guarded(D, Ev("ret"), variant_of_call(r"(std|core)::option::Option::take", "None"), "scope/drop-all-runs-every-dtor", "drop_all returns only when no deferred join is left",
                 pred_label="edge `dtors.take()` is None")
